@@ -146,15 +146,15 @@ def main():
 
     # find_used_modules: for candidate in chain(modules, external_modules)
     fum = find_func(fp, "find_used_modules")
-    # the loop over the candidate modules: `for candidate in chain(modules, external_modules)` (other chain
-    # loops of the function walk interface lists obtained with getattr and are not about the search order)
-    chains = [n for n in ast.walk(fum) if isinstance(n, ast.For) and isinstance(n.iter, ast.Call)
-              and isinstance(n.iter.func, ast.Name) and n.iter.func.id == "chain"
-              and n.iter.args and all(isinstance(a, ast.Name) for a in n.iter.args)]
+    # the candidate modules of a USE: `chain(modules, external_modules)` (iterated directly or through a
+    # variable); other chain calls of the function walk interface lists obtained with getattr and are not
+    # about the search order
+    chains = [n for n in ast.walk(fum) if isinstance(n, ast.Call) and isinstance(n.func, ast.Name)
+              and n.func.id == "chain" and n.args and all(isinstance(a, ast.Name) for a in n.args)]
     if len(chains) != 1:
-        raise Refuse("find_used_modules: expected one `for ... in chain(<names>)`")
+        raise Refuse("find_used_modules: expected one `chain(<names>)`")
     order = []
-    for a in chains[0].iter.args:
+    for a in chains[0].args:
         if not isinstance(a, ast.Name):
             raise Refuse("find_used_modules: chain argument is not a plain name")
         order.append(a.id)
